@@ -45,6 +45,17 @@ WITNESS = {
     'Meta': (ENTRY + 'meta { a: "a" + 1 }\n', ENTRY + 'meta { a: 1 + 1 }\n'),
     'ConstVar': (ENTRY + 'const int c = 1.5;\n' + script('    I0 = c;'), ENTRY + 'const int c = 1;\n' + script('    I0 = c;')),
 }
+# more single-error programs, tried when a table other than the dispatch rows is off (walk_stmt, operator tables, translator)
+EXTRA_WITNESS = [
+    script('    do {\n        I0 -= 1;\n    } while (F0);'), script('    do {\n        I0 -= 1;\n    } while (I0 > 0);'),
+    script('    unless (1.5) {\n    }'), script('    if (I0) {\n    } else if (2.5) {\n    }'),
+    script('    times(I0 = 1.5) {\n    }'), script('    times(F0 = 3) {\n    }'),
+    script('    I0 = 1 + 2.0;'), script('    F0 = sin(1);'), script('    I0 = ~1.5;'), script('    I0 = 1.5 < 2;'), script('    F0 = -"a";'),
+    script('    I0 = I1 ? 1 : 2.0;'), script('    I0 = (1:2.0);'), script('    ins_900(1, 2);'), script('    ins_900();'), script('    ins_902(1.5, 2.5);'),
+    script('    ins_900(@mask=1.5, 1);'), script('    ins_900(@blob=3);'), script('    I0 = ins_900(1);'), script('    int x = 1, y = 2.5;'),
+    script('    I0 += 1.5;'), script('    F0 <<= 1.0;'), script('    I0 = $F0 + %I1;'), script('    I0 = REG[20000];'), script('    F0 = int(1.5);'),
+    ENTRY + 'inline void f() {\n}\n' + script('    f(F0);'), ENTRY + 'inline int g(int a) {\n    return a;\n}\n' + script('    I0 = g(1.5);'),
+]
 PAD_WITNESS = (script('    ins_907(1, 2);'), script('    ins_907(1, 2.0);'))   # S_f: ill-typed but accepted / well-typed but rejected
 ECL10_WITNESS = 'void main() {\n    ins_11(EclSubName.foo);\n}\nvoid foo() {\n}\n'
 
@@ -148,6 +159,10 @@ def main(argv):
                     if w is not None:
                         for l in run_text(v, w, seed, 'wit_%s_%s.spec' % (k, tag)):
                             wit_lines.append(l + '\twitness=%s' % k)
+            if not status['walk_ok'] or not status['optypes_ok'] or unrec:
+                ws = [w for pair in WITNESS.values() for w in pair if w is not None] + EXTRA_WITNESS
+                for i, w in enumerate(ws):
+                    for l in run_text(v, w, seed, 'wit_all_%d.spec' % i): wit_lines.append(l + '\twitness=all')
             if status['call_zip'] != 'CZ_nondefault':
                 for i, w in enumerate(PAD_WITNESS):
                     for l in run_text(v, w, seed, 'wit_pad_%d.spec' % i): wit_lines.append(l + '\twitness=call-padding')
